@@ -45,6 +45,7 @@ def _load(sv, study_state, t1, m1, t2, md):
 
 
 S2 = 'owners/q/studies/s'        # another owner's study with the SAME study id and the same trial ids
+SIBLINGS = ['owners/o/studies/S', 'owners/o/studies/_']
 
 
 def _pair(study_state, t1, m1, t2, md=False):
@@ -55,6 +56,10 @@ def _pair(study_state, t1, m1, t2, md=False):
     svc.add_study(sv, state=1, name=S2)
     sv.datastore.create_trial(svc.make_trial(1, SUCCEEDED, client='z', n_meas=1, final=4.5, study=S2))
     sv.datastore.create_trial(svc.make_trial(2, ACTIVE, client='z', study=S2))
+    # sibling studies of the same owner whose ids differ only in case / by a character that is a wildcard in SQL LIKE
+    for sib in SIBLINGS:
+      svc.add_study(sv, state=1, name=sib, display=sib.split('/')[-1])
+      sv.datastore.create_trial(svc.make_trial(7, REQUESTED, study=sib))
   return ram, sql
 
 
@@ -144,6 +149,9 @@ def _step(op, study_state, t1, m1, t2, target, a, b, args):
     other = svc.abstract(ram, S2)
     ok = ok and other == svc.abstract(sql, S2) and len(other['trials']) == 2 and other['trials'][1]['final'] == [('m', 4.5)] \
         and other['trials'][2]['state'] == ACTIVE and other['md'] == []      # the other owner's study is never touched
+    for sib in SIBLINGS:
+      a1, a2 = svc.abstract(ram, sib), svc.abstract(sql, sib)
+      ok = ok and a1 == a2 and list(a1['trials']) == [7] and a1['trials'][7]['state'] == REQUESTED
     ok = ok and svc.lifecycle_ok(before, svc.abstract(sql))
     # a later, unrelated call that makes the SQL layer roll back (CreateStudy for an owner that already exists hits the
     # owners primary key) must not undo or alter what the call under test did: nothing may be left uncommitted
